@@ -200,6 +200,12 @@ func runVerify(o *verifyOpts) *verifyResult {
 			}
 			if *prop == "" || contains(c.Props, *prop) {
 				names = append(names, n)
+			} else if len(c.Props) > 0 && !c.IsLemma && !c.Content && e.inAnchorFiles(*prop, e.funcs[n]) {
+				// (byte-content contracts are checked under the properties they list only: their proofs need the
+				//  quantified content mode, which the other properties' runs do not pay for)
+				// a function under contract (for some property) that lives in a file the property is anchored in is
+				// part of what the property depends on: it is checked for this property too
+				names = append(names, n)
 			}
 		}
 	}
